@@ -53,7 +53,7 @@ type Program struct {
 	parents map[ast.Node]ast.Node
 
 	postconds     map[*types.Func][]lenPostcond
-	postCache     map[*FuncInfo]*postInfo
+	postCache     map[postKey]*postInfo
 	postBusy      map[*FuncInfo]bool
 	resLenCache   map[*FuncInfo][]resLen
 	resRangeCache map[*FuncInfo]*resRange
